@@ -251,7 +251,7 @@ register('C06',
          'transaction had never been attempted. Savepoints: a rolled back savepoint restores the database AND the unit of work, the whole '
          'state is as if the inner work had never been attempted (the clause was refuted for the original code and is proved since the '
          'repair of F-C06-savepoint-inner-flush). In memory: no unit of work / map entry after a rollback (Layer M); clear and '
-         'clear_connection of the model are generated from manager.py on every build. Tie to the code: fault '
+         'clear_connection of the model are generated from manager.py on every build; the savepoint snapshot of the current unit_of_work.py is read by a translator on every build and proved complete (every field captured and restored, mutable ones as copies: C06_savepoint_state_is_complete_in_the_code). Tie to the code: fault '
          'injection through before_cursor_execute at statement boundaries of a chosen transaction (quick: first, last, 4 random; '
          'thorough: every boundary), comparing all tables and the manager maps after the rollback with the state before, and the final '
          'tables with the run from which the failed transaction is deleted; savepoint histories (rollback / release / rollback of the '
